@@ -1,7 +1,7 @@
 ----------------------------- MODULE MC_Refuse -----------------------------
 EXTENDS Refuse, Json, TLC
 \* export one case per request (at its final phase) for replay into the library
-Final == phase \in {"refused", "sent"} \/ (phase = "built" /\ req.k \notin {"prin_sa", "facade_bs0"})
+Final == phase \in {"refused", "sent"} \/ (phase = "built" /\ req.k \notin {"prin_sa", "facade_bs0", "facade_bs_reset"})
 Export == /\ Final
           /\ PrintT(<<"CASE", ToJson([k |-> req.k, v |-> req.v, expect |-> Verdict(req), execs |-> execs, obj |-> obj])>>)
           /\ UNCHANGED vars
